@@ -55,9 +55,17 @@ known("KF8-keep-all-not-neutral", ["C06"],
       "0.5::f. d(c1). d(c2). r(Y) :- d(Y), f, d(X). query(r(c1)).  LogicFormula.create_from(..., keep_all=True)",
       match_any=[{"clause": c, "keep_all": True} for c in ["prob", "crash", "option-dependent", "spurious-answer", "missing-instance", "answered-inconsistent-evidence", "spurious-inconsistent-evidence", "wrong-error"]])
 
+known("KF9-ad-sum-unchecked-when-one-head-grounded", ["C30"],
+      "an annotated disjunction whose probabilities sum to more than 1 is accepted when only one of its heads is grounded: the sum is only checked by ConstraintAD once a second member of the group has been added",
+      "0.6::a; 0.6::b. query(a).   (answers a: 0.6; with query(b) added InvalidValue is raised)",
+      match={"clause": "invalid-annotation-accepted", "invalid_kind": "ad-sum-one"})
+
 fixed("FX3-symbolic-normalize-parentheses", ["C05"], "75632d5",
       "SemiringSymbolic.normalize printed a / z without parentheses around a product z: expression evaluates to a wrong number",
       "0.6::f. 0.8::h(c2). 0.1::a. p :- h(c2), f. query(a). evidence(p).  symbolic result 0.8*0.6*0.1 / 0.8*0.6*(0.1 + (1-0.1)) = 0.036, expected 0.1")
+fixed("FX4-bitvector-iand", ["C34"], "ba4cb95",
+      "BitVector.__iand__ left the blocks of self beyond other's length unchanged ({1,40} &= {1} gave {1,40})",
+      "a=BitVector(); a.add(1); a.add(40); b=BitVector(); b.add(1); a &= b; sorted(a) == [1, 40]")
 fixed("FX1-break-cycles-true-child", ["C01", "C09"], "29bdee9",
       "AssertionError in LogicFormula.get_node(0) from _break_cycles when a disjunction below an evidence node contains the TRUE node",
       "0.1::h(c1). d(c1). d(c2). p(X) :- d(X), r(c1). p(Y) :- d(Y). r(X) :- p(X). r(Y) :- d(Y), h(X). query(p(c1)). evidence(r(c1)).")
